@@ -388,6 +388,10 @@ func init() {
 				docs = append(docs, string(gen.MutateDoc(r, []byte(docs[10]), "whitespace")), string(gen.MutateDoc(r, []byte(docs[11]), "whitespace")),
 					string(gen.MutateDoc(r, []byte(docs[0]), "whitespace")), string(gen.MutateDoc(r, []byte(docs[1]), "whitespace")),
 					strings.NewReplacer(`"pad"`, "[ ]", `"zz":0`, `"zz":{ }`, ",7]", ",[\n],{\t}]").Replace(docs[11]))
+				for j := 0; j <= len(steps); j++ {
+					ws := []string{" ", "\n", "\t", "\r\n ", ""}[(j+k+c.Idx)%5]
+					docs = append(docs, emptyAtDepth(steps, j, "{", ws, "}"), emptyAtDepth(steps, j, "[", ws, "]"))
+				}
 				if arrayOnly {
 					docs = append(docs, `[[1],[ ],[2,[\n],[ 3 ]]]`, `[ ]`, `[[ ]]`, `[[],[ ]]`, `[[[]],[[ ]],[[\t],[4]]]`, ` [ [ 1 , 2 ] , [ ] , [ [ ] , [ 5 ] ] ] `, `[[1,2],[],[[],[5]]]`)
 				}
@@ -577,6 +581,31 @@ func c20IndexForms(c *rt.Ctx, sub0 int) {
 		}
 		c.NonTrivial("index-form", txt)
 	}
+}
+
+// emptyAtDepth builds the document that follows the first j steps of a path and then holds an
+// empty container (spelled with the given interior white space) where step j would descend: the
+// walker has to recognise the empty container while traversing, not while skipping.
+func emptyAtDepth(steps []pstep, j int, open, ws, close string) string {
+	cur := open + ws + close
+	for i := j - 1; i >= 0; i-- {
+		st := steps[i]
+		switch st.kind {
+		case 'c', 'r':
+			q, _ := stdjson.Marshal(st.name)
+			cur = "{" + string(q) + ":" + cur + "}"
+		case 'i':
+			elems := make([]string, st.idx+1)
+			for k := range elems {
+				elems[k] = open + ws + close
+			}
+			elems[st.idx] = cur
+			cur = "[" + strings.Join(elems, ",") + "]"
+		case 'a':
+			cur = "[" + cur + "," + open + ws + close + "]"
+		}
+	}
+	return cur
 }
 
 func tailoredDoc(r *rand.Rand, steps []pstep, variant int) string {
